@@ -364,8 +364,42 @@ def theory_parameters(ctx):
             ctx.violation("C11:theory-parameters-raises:%s" % type(ex).__name__, "model over %s raised %r" % (info["theory"], ex), info)
 
 
+def tie_edge_cases(ctx):
+    """ties written the way a script may write them: a name listed twice, a new name that is already in use -- the model still
+    exposes uniquely named parameters, one per distinct prior, and exactly the duplicates are removed"""
+    rng = ctx.rng
+    for i in range(ctx.n(6, 40)):
+        m = int(rng.integers(2, 5))
+        mk = lambda: AlphaModel(Spheres([Sphere(n=Uniform(1.4, 1.7, guess=1.5), r=Uniform(0.3, 0.6, guess=0.45), center=[Uniform(2 * j, 2 * j + 1, guess=2 * j + 0.5), 0.0, Uniform(5, 9, guess=7.0)])
+                                         for j in range(m)], warn=False), alpha=Uniform(0.5, 1.0, guess=0.8), medium_index=1.33, illum_wavelen=0.66, illum_polarization=(1, 0), noise_sd=0.1, theory=Mie())
+        base = mk()
+        rn = [nm for nm in base._parameter_names if nm.endswith(":r")]
+        nn = [nm for nm in base._parameter_names if nm.endswith(":n")]
+        # (a) a name listed twice
+        ctx.tried("tie-name-twice", (m, i))
+        a, b = mk(), mk()
+        ra = impl_call(lambda: a.add_tie([rn[0], rn[1], rn[0]]))
+        b.add_tie([rn[0], rn[1]])
+        info = dict(kind="tie-edge", members=m, names=list(base._parameter_names))
+        if not (isinstance(ra, tuple) and len(ra) == 2 and ra[0] == "err"):
+            if a._parameter_names != b._parameter_names or show_map(a._maps) != show_map(b._maps) if "show_map" in globals() else a._parameter_names != b._parameter_names:
+                ctx.violation("C11:tie:name-listed-twice", "add_tie([%r, %r, %r]) leaves the parameters %r; tying the two distinct names leaves %r" % (rn[0], rn[1], rn[0], a._parameter_names, b._parameter_names), info)
+        c_ = mk()
+        rc_ = impl_call(lambda: c_.add_tie([rn[0], rn[0]]))
+        if not (isinstance(rc_, tuple) and len(rc_) == 2 and rc_[0] == "err") and c_._parameter_names != base._parameter_names:
+            ctx.violation("C11:tie:single-name-twice", "add_tie([%r, %r]) (one parameter named twice) changes the parameters from %r to %r" % (rn[0], rn[0], base._parameter_names, c_._parameter_names), info)
+        # (b) a new name that is already the name of another parameter
+        ctx.tried("tie-new-name-in-use", (m, i))
+        d_ = mk()
+        taken = nn[0]
+        rd = impl_call(lambda: d_.add_tie([rn[0], rn[1]], new_name=taken))
+        if not (isinstance(rd, tuple) and len(rd) == 2 and rd[0] == "err") and len(set(d_._parameter_names)) != len(d_._parameter_names):
+            ctx.violation("C11:tie:new-name-in-use", "add_tie(..., new_name=%r) where %r already names another parameter: the model now has the parameter names %r" % (taken, taken, d_._parameter_names), info)
+
+
 def search(ctx):
     theory_parameters(ctx)
+    tie_edge_cases(ctx)
     rng = ctx.rng
     n = ctx.n(60, 600)
     # deterministic probe: a Model over a RigidCluster must honour its rotation/translation parameters
